@@ -164,6 +164,29 @@ def run_sampling_case(ctx, res, seed):
                 res.failures.append({'kind': 'sample-outside-normalised-domain',
                                      'input': {'seed': seed, 'specs': specs, 'use_pdf': use_pdf, 'variable': v.name},
                                      'observed': [float(arr.min()), float(arr.max())], 'expected': [lo, hi]})
+    # distributions of which the domain holds only part of the mass (rejection sampling has to reject often): a standard
+    # normal cut to half a sigma, a normal restricted to a tail, a log-normal on one decade
+    tight = [Variable('t0', distribution='N(0, 1)', domain=(-0.5, 0.5), norm=rng.choice([None, 'minmax'])),
+             Variable('t1', distribution='N(0, 1)', domain=(1.8, 2.6), norm=rng.choice([None, 'zscore'])),
+             Variable('t2', distribution='LN(0, 1)', domain=(3.0, 30.0), norm=rng.choice([None, 'log10']))]
+
+    def mt(inputs):
+        return {'y': inputs['t0'] + inputs['t1'] + inputs['t2']}
+    tsys = System(Component(mt, inputs=tight, outputs=[Variable('y')], name='c', vectorized=True), name='tight')
+    np.random.seed(seed % 2 ** 31 + 1)
+    smp = tsys.sample_inputs(3000, use_pdf=True)
+    doms = tsys.inputs().get_domains()
+    for v in tight:
+        lo, hi = sorted(map(float, doms[v.name]))
+        arr = np.asarray(smp[v.name], dtype=float)
+        nout = int(np.sum((arr < lo - 1e-12 * max(1, abs(lo))) | (arr > hi + 1e-12 * max(1, abs(hi)))))
+        if nout:
+            res.failures.append({'kind': 'sample-outside-normalised-domain',
+                                 'input': {'seed': seed, 'variable': v.name, 'distribution': str(v.distribution),
+                                           'domain': list(map(float, v.get_domain())), 'use_pdf': True},
+                                 'observed': {'outside': nout, 'of': 3000, 'range': [float(arr.min()), float(arr.max())]},
+                                 'expected': [lo, hi]})
+    res.hit('sample-inputs-tight-domains')
     res.hit('sample-inputs')
     res.case(('sampling', seed), True, {'seed': seed, 'specs': specs})
 
